@@ -1019,9 +1019,9 @@ def i_ROL(i, fmap):
     mask = 0x3F if W == 1 else 0x1F
     op1 = i.operands[0]
     size = op1.size
-    count = fmap(i.operands[1] & mask) % size
+    count = fmap(i.operands[1] & mask)
     a = fmap(op1)
-    x = ROL(a, count)
+    x = ROL(a, count % size)
     if count._is_cst:
         if count.value == 0:
             _shift_by_0(fmap, op1, a)
@@ -1047,9 +1047,9 @@ def i_ROR(i, fmap):
     mask = 0x3F if W == 1 else 0x1F
     op1 = i.operands[0]
     size = op1.size
-    count = fmap(i.operands[1] & mask) % size
+    count = fmap(i.operands[1] & mask)
     a = fmap(op1)
-    x = ROR(a, count)
+    x = ROR(a, count % size)
     if count._is_cst:
         if count.value == 0:
             _shift_by_0(fmap, op1, a)
